@@ -51,7 +51,7 @@ TT = z3.Int("t!")   # the skolem time point of pointwise series obligations
 
 
 class Engine:
-    def __init__(self, world=None, rlimit=20_000_000):
+    def __init__(self, world=None, rlimit=3_000_000):
         self.world = world
         self.run = None
         self.obligations = []
@@ -99,6 +99,7 @@ class Engine:
             s.set("rlimit", 2_000_000)
             for c in self.run.pc: s.add(c)
             for c in extra: s.add(c)
+            for c in S.rounding_facts(list(self.run.pc) + list(extra)): s.add(c)
             r = s.check()
         finally:
             s.pop()
@@ -163,11 +164,12 @@ class Engine:
         return self.obligations
 
 
-def solve(o, rlimit=20_000_000):
+def solve(o, rlimit=3_000_000):
     s = z3.Solver()
     s.set("rlimit", rlimit)
     for h in o.hyps: s.add(h)
     s.add(z3.Not(o.goal))
+    for c in S.rounding_facts(list(o.hyps) + [o.goal]): s.add(c)
     t0 = time.time()
     r = s.check()
     o.time = time.time() - t0
